@@ -335,3 +335,35 @@ V("C02", "shortcut-removed", "silent", "", "two-term shortcut removed (general s
   (PRB, "        if len(terms) == 2 and batch_size is None:\n            return terms[0] + terms[1]\n", ""))
 V("C02", "pdf-exp-temp", "silent", "", "Model.pdf with a temporary",
   (PDFF, "        return tensorlib.exp(self.logpdf(pars, data))", "        logp = self.logpdf(pars, data)\n        return tensorlib.exp(logp)"))
+
+# ------------------------------------------------------------------ C12
+WSF = "src/pyhf/workspace.py"
+MXF = "src/pyhf/mixins.py"
+V("C12", "slice-overlap", "fire", "C12.R1", "parameter offset advanced by n-1 (overlapping slices)",
+  (PDFF, "            next_index = next_index + paramset.n_parameters\n", "            next_index = next_index + paramset.n_parameters - 1\n"))
+V("C12", "channel-offset-not-advanced", "fire", "C12.R1", "channel slice offset not advanced",
+  (MXF, "            self._channel_slices[c] = slice(begin, end)\n            begin = end\n", "            self._channel_slices[c] = slice(begin, end)\n"))
+V("C12", "viewer-window-after-advance", "fire", "C12.R1", "viewer slice taken after the advance",
+  ("src/pyhf/tensor/common.py", "        stop = start + sz\n        target_slices.append(slice(start, stop))\n        start = stop\n", "        stop = start + sz\n        start = stop\n        target_slices.append(slice(start, stop))\n"))
+V("C12", "par-names-skip-scalar", "fire", "C12.R2", "par_names drops scalar parameters",
+  (PDFF, "            if param_set.is_scalar:\n                _names.append(name)\n                continue\n", "            if param_set.is_scalar:\n                continue\n"))
+V("C12", "fixed-order", "fire", "C12.R2", "suggested_fixed iterates the sorted parameter list instead of par_order",
+  (PDFF, "        fixed = []\n        for name in self.par_order:", "        fixed = []\n        for name in sorted(self.par_order, reverse=True):"))
+V("C12", "model-no-deepcopy", "fire", "C12.R3", "Model keeps a reference to the caller's spec",
+  (PDFF, "        self.spec = copy.deepcopy(spec)\n", "        self.spec = spec\n"))
+V("C12", "workspace-validate-before-copy", "fire", "C12.R3", "Workspace copies after first using the caller's spec",
+  (WSF, "        spec = copy.deepcopy(spec)\n        self.schema = config_kwargs.pop('schema', 'workspace.json')\n        self.version = config_kwargs.pop('version', spec.get('version', None))\n", "        self.schema = config_kwargs.pop('schema', 'workspace.json')\n        self.version = config_kwargs.pop('version', spec.setdefault('version', None))\n        spec = copy.deepcopy(spec)\n"))
+V("C12", "data-no-init", "fire", "C12.R3", "reduce(iadd) without a fresh accumulator",
+  (WSF, "operator.iadd, (self.observations[c] for c in model.config.channels), []", "operator.iadd, (self.observations[c] for c in model.config.channels)"))
+V("C12", "data-spec-order", "fire", "C12.R5", "data concatenated in workspace listing order",
+  (WSF, "(self.observations[c] for c in model.config.channels), []", "(self.observations[c] for c in self.observations), []"))
+V("C12", "unsorted-samples", "fire", "C12.R4", "sample list not sorted",
+  (MXF, "        self._samples = sorted(list(set(self._samples)))\n", "        self._samples = list(dict.fromkeys(self._samples))\n"))
+V("C12", "builders-spec-order", "fire", "C12.R4", "builders driven by the spec's channel order",
+  (PDFF, "    for c in config.channels:\n        for s in config.samples:\n            helper_data = helper.get(c, {}).get(s)", "    for c in [ch['name'] for ch in spec['channels']]:\n        for s in config.samples:\n            helper_data = helper.get(c, {}).get(s)"))
+V("C12", "build-drops-sigmas", "fire", "C12.R6", "build writes auxdata and factors but not sigmas",
+  (WSF, "for key in ('auxdata', 'sigmas', 'factors')", "for key in ('auxdata', 'factors')"))
+V("C12", "build-slices-order", "fire", "C12.R5", "build cuts the data with a running offset in spec order",
+  (WSF, "            {'name': k, 'data': list(data[model.config.channel_slices[k]])}\n            for k in model.config.channels", "            {'name': k, 'data': list(data[model.config.channel_slices[k]])}\n            for k in [c['name'] for c in model.spec['channels']]"))
+V("C12", "init-loop-plus-equals", "silent", "", "suggested_init accumulates with +=",
+  (PDFF, "            init = init + self.par_map[name]['paramset'].suggested_init", "            init += self.par_map[name]['paramset'].suggested_init"))
